@@ -195,8 +195,24 @@ def build_cli():
     sim_o = os.path.join(d, "cli_sim.o")
     jobs.append([CXX, "-std=c++17", "-Wall"] + ASAN + inc + ["-c", os.path.join(VERIF, "sim/cli/cli_sim.cpp"), "-o", sim_o])
     compile_many(jobs, {2})
+    # an independent copy of the WHOLE library (with its own decoder) for the reference model: every global it
+    # defines is renamed ref_<name>, so the oracle's verdicts cannot be influenced by the tool's interposing symbols
+    rd = os.path.join(d, "ref")
+    robjs = compile_lib(rd, "idn2", ASAN, [], with_lib_decoder=True)
+    defined = set()
+    for line in run(["nm", "--defined-only", "-g"] + robjs).splitlines():
+        parts = line.split()
+        if len(parts) == 3 and parts[1] in "TDBRCVWGS":
+            defined.add(parts[2])
+    defined = sorted(x for x in defined if not x.startswith("__asan") and not x.startswith("__ubsan") and not x.startswith("asan.") and not x.startswith("__odr_asan"))
+    mapf = os.path.join(rd, "redefine.txt")
+    with open(mapf, "w") as f:
+        for x in defined:
+            f.write("%s ref_%s\n" % (x, x))
+    for o in robjs:
+        run(["objcopy", "--redefine-syms=" + mapf, o])
     exe = os.path.join(d, "cli")
-    run([CXX, "-fsanitize=address,undefined", "-o", exe, sim_o, main_o, dec_o] + objs + ["-lidn2"]
+    run([CXX, "-fsanitize=address,undefined", "-o", exe, sim_o, main_o, dec_o] + objs + robjs + ["-lidn2"]
         + ["-Wl," + ",".join("--wrap=" + w for w in CLI_WRAPS)])
     ext = undefined_externals([main_o, dec_o])
     return exe, ext
